@@ -2,7 +2,7 @@
    parse <str>                                    -> ok <first> <last> <count> | err
    cvlan <str>                                    -> any | exact <n> | err
    cfg <G> {<name> <R> {<sv> <cv>}} <Q> {<s> <c>} -> <validate> ; <lookup results...>     (R = -1: nil group entry)
-     <validate> = valid | collision <svlan> <sel> <prev> <name> | malformed <name> <idx> svlan|cvlan
+     <validate> = valid | rejected
    cfgnil <Q> {<s> <c>}                           -> same, for a nil configuration
    sweep <G> {<name> <R> {<sv> <cv>}}             -> <validate> ; md5=<digest of the 4096x4096 table> hits=<n> rowruns=<k> diff=none
    runes <kind> <lo> <hi>                         -> accepted code points, as runs lo-hi=<result>
@@ -44,14 +44,12 @@ let read_config toks =
       | _ -> failwith "bad cfg" in
     groups ng rest []
 
-(* ValidateMatchIndex as of /repo 461c9d7: unparseable ranges are rejected (validate_strict, theorems C14_strict_accepts_iff etc.) *)
+(* ValidateMatchIndex: the property constrains acceptance only (C14_strict_accepts_iff); which defect is reported
+   first (HEAD: validate_strict's VCollision / VMalformed in walk order) is not compared *)
 let show_validate cfg =
   match validate_strict cfg with
   | VOk -> "valid"
-  | VCollision (s, se, prev, name) ->
-    Printf.sprintf "collision %d %s %s %s" (int_of_n s) (show_sel se) (token_of_cps prev) (token_of_cps name)
-  | VMalformed (name, idx, w) ->
-    Printf.sprintf "malformed %s %d %s" (token_of_cps name) (int_of_nat idx) (if w then "svlan" else "cvlan")
+  | VCollision _ | VMalformed _ -> "rejected"
 
 let queries cfg rest =
   let qs = match rest with _ :: qs -> qs | [] -> [] in
